@@ -10,7 +10,7 @@ The number of sample points comes from `ubound`, a deliberately crude structural
 (sum for products, max for sums, exponent times base for powers, *no* reduction for derivatives).  It is
 used only to know how many points are enough (a polynomial of degree <= U is determined by U+1 points);
 two more points are taken and the two highest difference orders must vanish, otherwise the bound itself
-was wrong and the oracle reports an error instead of a degree.  `ubound` returns None for anything that is
+was wrong and the oracle reports an error instead of a degree.  `ubound` raises NotPolynomial for anything that is
 not a polynomial in the coordinates by construction (division by a non-constant, conditions that vary in
 space, abs / min / max / math functions of non-constants, inverse of a non-constant matrix): such
 expressions are outside the property and are skipped.
